@@ -34,6 +34,13 @@ def generate():
                 if n < need:
                     raise EncodingError(f"{rel}: pattern not found: {pat}")
                 n_subs += n
+            # a free helper (column-0 `fn`, not a method) that receives one of the two lengths as `usize` receives the
+            # symbolic length instead (s45: the count checks moved into `fn check_num_entries(reg_size: usize)`); a call
+            # site that still passes a plain usize then fails to build -> exit 2, never a wrong verdict
+            def _sym_params(m):
+                return m.group(1) + re.sub(r":\s*usize\b", ": crate::shim::SymLen", m.group(2)) + m.group(3)
+            body, n = re.subn(r"(?m)^((?:pub(?:\([a-z]+\))? )?fn \w+\()([^)]*\busize\b[^)]*)(\))", _sym_params, body)
+            n_subs += n
             if "size: size.into()" not in body and ".into()," not in body:
                 raise EncodingError(f"{rel}: no EntryTooBig construction found")
             subs = [None] * n_subs
